@@ -194,8 +194,10 @@ TSync ==
               retract |-> (hasDirect =>
                              /\ r.R.bal = d.bal
                              /\ Pairs(f.mrel) = d.rel
-                             /\ (IF WaiveFundingClaim THEN LiveNoFunding(r.R.claims) = SelectSeq(d.claims, LAMBDA g : ~SpendsFunding(g))
-                                 ELSE LiveOf(r.R.claims) = d.claims)
+                             \* everything a fresh delivery of this chain claims is (again) being claimed; a
+                             \* claim made while the chain was higher may legitimately still be pending
+                             /\ (IF WaiveFundingClaim THEN ToSet(SelectSeq(d.claims, LAMBDA g : ~SpendsFunding(g))) \subseteq ToSet(r.R.claims)
+                                 ELSE ToSet(d.claims) \subseteq ToSet(r.R.claims))
                              /\ (r.R.chans # <<>> => (r.R.chans = d.chans /\ Pairs(f.grel) = d.grel)))]
   /\ phase' = "idle"
   /\ UNCHANGED <<hvars, target, tp, cf, ifc, gv, kind, histId, failTrig, baseConf, inputs, reloaded, canonHist>>
